@@ -119,6 +119,10 @@ func c07Stages() []c07StageInfo {
 		{s: &refmodel.Drop{Items: []refmodel.DKItem{dm("a", "=", "1"), dm("b", "=", "3"), dm("a", "=~", "1")}}},
 		{s: &refmodel.Drop{Items: []refmodel.DKItem{dm("a", "=", "2")}}},
 		{s: &refmodel.Decolorize{}},
+		// the dot of a label expression does not match a line break
+		{s: &refmodel.Drop{Items: []refmodel.DKItem{dm("n", "=~", ".+")}}},
+		{s: &refmodel.Keep{Items: []refmodel.DKItem{dm("n", "=~", ".*"), dm("a", "!~", ".+")}}, isKeep: true},
+		{s: &refmodel.Drop{Items: []refmodel.DKItem{dm("n", "!~", ".*"), dm("u", "=~", "x.*")}}},
 		// a template over the old value of the label it overwrites (every record on its own: once)
 		{s: lfmt(tpl("a", tl("p-"), tv("a")))},
 		{s: lfmt(tpl("c", tl("<"), tv("c"), tl(">")), tpl("d", tv("b")))},
@@ -167,7 +171,7 @@ func c07Records() []mockq.Rec {
 	ts++
 	out = append(out, mockq.Rec{TS: ts * sec, Line: "l", Labels: wide})
 	// values of several bytes per character; a value that begins like one alternative of an anchored expression
-	for _, ls := range [][]mockq.KV{{{K: "u", V: "хлеб"}, {K: "a", V: "12"}}, {{K: "u", V: "é世x"}, {K: "a", V: "21"}, {K: "c", V: "x"}}, {{K: "u", V: "xх"}, {K: "a", V: "2"}}} {
+	for _, ls := range [][]mockq.KV{{{K: "u", V: "хлеб"}, {K: "a", V: "12"}}, {{K: "u", V: "é世x"}, {K: "a", V: "21"}, {K: "c", V: "x"}}, {{K: "u", V: "xх"}, {K: "a", V: "2"}}, {{K: "n", V: "a\nb"}, {K: "u", V: "x\ny"}, {K: "a", V: "1"}}, {{K: "n", V: "\n"}}, {{K: "n", V: "ab"}}} {
 		ts++
 		out = append(out, mockq.Rec{TS: ts * sec, Line: "l", Labels: ls})
 	}
